@@ -245,6 +245,10 @@ def cases(rng, tier):
                         "mode": rng.choice([None, None, "form_post", "fragment"])})
         out.append({"t": "jar_uri", "fl": fl, "via": "request_uri", "uri": "https://attacker.example.org/landing", "kind": "other-host", "prompt_none": True, "mode": None})
         out.append({"t": "jar_uri", "fl": fl, "via": "request", "uri": "https://attacker.example.org/landing", "kind": "other-host", "prompt_none": True, "mode": "form_post"})
+    # no redirect_uri in the request at all (OAuth2: optional): the ONE registered URI is used — with its query — and only then
+    for cid in NOURI:
+        for st in rng.sample(STATES, 2) + ["plain"]:
+            out.append({"t": "nouri", "client": cid, "state": st, "mode": rng.choice([None, None, "fragment", "form_post"])})
     for _ in range(60 * n):
         out.append({"t": "resp", "mode": rng.choice(["query", "fragment", "form_post", None]), "rt": rng.choice(["code", "code id_token", "id_token"]),
                     "state": rng.choice(STATES) if rng.random() < 0.8 else common.rnd_text(rng, 12), "reg": rng.randrange(2),
@@ -302,6 +306,48 @@ def _logout(c):
     p = sjwt.split(".")[1]
     payload = _json.loads(_b64.urlsafe_b64decode(p + "=" * (-len(p) % 4)))
     return {"r": "ok", "uri": c["uri"], "target": payload["redirect_uri"], "first_hop": loc.split("?")[0], "payload_state": payload.get("state")}
+
+
+NOURI = {"one": [("https://one.example.com/cb", {"a": ["b"]})], "oneplain": [("https://oneplain.example.com/cb", None)],
+         "two": [("https://two.example.com/cb", None), ("https://two.example.com/cb2", None)], "none": [], "ghost": None}
+_nsrv = None
+
+
+def nouri_server():
+    global _nsrv
+    if _nsrv is None:
+        from idpyoidc.server.oauth2.authorization import Authorization as OAuth2Authorization
+        _nsrv = opbase.make_op(more_endpoints={"authorization": {"path": "authorization", "class": OAuth2Authorization, "kwargs": {}}})
+        ctx = _nsrv.context
+        for cid, reg in NOURI.items():
+            if reg is not None:
+                ctx.cdb[cid] = dict(ctx.cdb[WEB], client_id=cid, redirect_uris=list(reg))
+    return _nsrv
+
+
+def _nouri(c):
+    ep = nouri_server().get_endpoint("authorization")
+    req = {"client_id": c["client"], "response_type": "code", "scope": "openid", "state": c["state"]}
+    if c.get("mode"):
+        req["response_mode"] = c["mode"]
+    try:
+        pr = ep.parse_request(req)
+    except Exception as e:
+        return {"r": "direct", "how": "parse:" + type(e).__name__}
+    if "error" in pr:
+        return {"r": "direct", "how": "parse-error", "redirected": "redirect_location" in pr or "return_uri" in pr}
+    try:
+        out = ep.process_request(pr)
+        issued = out.get("response_args")
+        issued = issued.to_dict() if hasattr(issued, "to_dict") else None
+        resp = ep.do_response(request=pr, **out)
+    except Exception as e:
+        return {"r": "direct", "how": "process:" + type(e).__name__}
+    body = resp["response"]
+    if "<html" in body.lower():
+        fp = _FormParser(); fp.feed(body)
+        return {"r": "sent", "kind": "form_post", "target": fp.action, "got": dict(fp.inputs), "issued": issued, "tags": sorted(set(fp.tags))}
+    return {"r": "sent", "kind": "url", "target": body, "issued": issued}
 
 
 _jsrv = {}
@@ -385,6 +431,8 @@ def _jar_uri(c):
 def impl(c):
     if c["t"] == "jar_uri":
         return _jar_uri(c)
+    if c["t"] == "nouri":
+        return _nouri(c)
     s = server()
     ep = s.get_endpoint("authorization")
     if c["t"] == "logout":
@@ -442,6 +490,19 @@ def _verify_line(uri, native, reg):
 
 
 def model_lines(c, obs):
+    if c["t"] == "nouri":
+        # the delivery model on the registered URI put together from its stored (base, query) pair
+        reg = NOURI[c["client"]]
+        if obs["r"] != "sent" or obs.get("kind") != "url" or obs["issued"] is None or not reg or len(reg) != 1:
+            return []
+        b, q = reg[0]
+        uri = b + ("?" + "&".join(f"{k}={x}" for k, xs in q.items() for x in xs) if q else "")
+        flat = []
+        for k, v in obs["issued"].items():
+            if isinstance(v, list):
+                v = " ".join(v)
+            flat += [str(k).encode().decode("latin-1"), str(v).encode().decode("latin-1")]
+        return ["\t".join(["redir", "deliver", "fragment" if c.get("mode") == "fragment" else "query", enc_str(uri), enc_list(flat)])]
     s = server()
     if c["t"] == "jar_uri":
         # the model is asked about the redirect_uri that is in effect: the one inside the object
@@ -490,6 +551,11 @@ def model_lines(c, obs):
 
 
 def compare(c, obs, outs):
+    if c["t"] == "nouri":
+        if not outs:
+            return []
+        m = dec_str(outs[0])
+        return [] if m == obs["target"] else [f"no redirect_uri in the request, client {c['client']}: model delivers to {m!r}, implementation to {obs['target']!r}"]
     if c["t"] == "jar_uri":
         if not outs:
             return [] if (obs["r"] == "direct" or c["uri"] == "") else [f"the decoded inner value is not parseable but something was sent: {obs}"]
@@ -581,6 +647,38 @@ def oracle(c, obs):
         if (t["scheme"], t["authority"], t["path"]) != (sent["scheme"], sent["authority"], sent["path"]) or t["fragment"] is not None or got_q != want_q:
             v.append({"cls": "post-logout-target-altered", "has_query": bool(reg[1]), "want": want_q, "got": got_q, "fragment": t["fragment"]})
         return v
+    if c["t"] == "nouri":
+        reg = NOURI[c["client"]]
+        if obs.get("redirected"):
+            v.append({"cls": "mismatch-redirects"})
+        if obs["r"] == "sent":
+            if not reg or len(reg) != 1:
+                v.append({"cls": "accepted-unregistered", "kind": "no-redirect-uri", "uri": obs["target"], "which": "request without redirect_uri", "registered": len(reg or [])})
+                return v
+            b, q = reg[0]
+            t = obs["target"]
+            got = rfc_parts(t.split("#")[0])
+            r = rfc_parts(b)
+            want_q = [(k, x) for k, xs in (q or {}).items() for x in xs]
+            gq = parse_qsl(got["query"] or "", keep_blank_values=True)
+            if (got["scheme"], got["authority"], got["path"]) != (r["scheme"], r["authority"], r["path"]) or gq[: len(want_q)] != want_q:
+                v.append({"cls": "accepted-unregistered", "kind": "no-redirect-uri", "uri": t, "which": "request without redirect_uri", "registered": 1})
+            if obs["kind"] == "url":
+                pairs = parse_qsl(urlsplit(t).fragment, keep_blank_values=True) if c.get("mode") == "fragment" else gq[len(want_q):]
+                delivered = dict(pairs)
+            else:
+                delivered = {k: x for k, x in obs["got"].items()}
+                if obs["tags"] != ["body", "form", "head", "html", "input", "title"]:
+                    v.append({"cls": "markup-injected", "tags": obs["tags"]})
+            issued = {k: (" ".join(x) if isinstance(x, list) else str(x)) for k, x in (obs["issued"] or {}).items()}
+            if obs["issued"] is not None and delivered != issued:
+                v.append({"cls": "delivered-params-differ", "got": delivered, "issued": issued})
+            if delivered.get("state") != c["state"]:
+                v.append({"cls": "state-differs"})
+        elif reg and len(reg) == 1 and str(obs.get("how", "")).startswith("parse"):
+            # (a failure further on — e.g. response_mode=fragment for a code, F-C12-d — is not a matter of where responses go)
+            v.append({"cls": "single-registered-uri-not-used", "client": c["client"], "how": obs.get("how")})
+        return v
     if c["t"] == "jar_uri":
         if obs.get("redirected"):
             v.append({"cls": "mismatch-redirects"})
@@ -661,6 +759,8 @@ def known_key(c, v, known):
 
 
 def classify(c, obs):
+    if c["t"] == "nouri":
+        return f"nouri:{c['client']}:{obs['r']}:{obs.get('how') or obs.get('kind')}"
     if c["t"] == "jar_uri":
         return f"jar_uri:{c['fl']}:{c['via']}:{obs['r']}:{obs.get('how')}"
     if c["t"] == "uri":
@@ -671,6 +771,8 @@ def classify(c, obs):
 
 
 def nontrivial(c, obs):
+    if c["t"] == "nouri":
+        return True
     if c["t"] in ("uri", "jar_uri"):
         return c["kind"] != "same"
     if c["t"] == "logout" and c["kind"] != "same":
